@@ -216,7 +216,8 @@ pub fn check_constructed(case: &Case, how: u64, st: &mut Stats) {
             }
         })
         .collect();
-    let site = OccupiedSite::from_wyckoff(&WyckoffSite { letter: 'a', symmetries: ops, num_rotations: 1, mirror_primary: false, mirror_secondary: false });
+    // (the descriptive fields of a Wyckoff site take any value: placements are the operations times the site)
+    let site = OccupiedSite::from_wyckoff(&WyckoffSite { letter: ['a', 'b', 'z'][(how % 3) as usize], symmetries: ops, num_rotations: [1u64, 2, 4, 0, 3, 6][((how / 7) % 6) as usize], mirror_primary: (how / 11) % 2 == 1, mirror_secondary: (how / 13) % 3 == 1 });
     let inside = case.x.abs() <= 0.5 && case.y.abs() <= 0.5 && case.phi >= 0. && case.phi <= 2. * PI;
     let site = if inside && how % 2 == 0 {
         {
